@@ -56,6 +56,27 @@ package main
 //               parameter `nil_T` (so nothing can be proved about a returned nil)
 //   method chains  `x.M(a).P()` as a condition, x a local object: `method_P (method_M x a)` with an
 //               uninterpreted `method_P : Nat → Bool`
+//   elements    a value of the interface type ff.Element is `Option Nat`: `none` = nil, `some w` = an element
+//               as an abstract VALUE word w; `[]ff.Element` is `List (Option Nat)`.  `E.M(args)` on an element
+//               expression E is `method_M w args` with an uninterpreted function parameter (result Bool
+//               for IsZero/IsOne/IsNonzero, else an element) under the guard E ≠ nil (nil dereference);
+//               element arguments are passed as their values under the same guard.  The statement
+//               `b[i].M(args)` (in-place mutation of the element object in slot i) sets slot i to
+//               `some (method_M old args)`.  ASSUMPTIONS: element objects are not shared between slots /
+//               polynomials / the caller (sharing is invisible to values); methods return non-nil elements;
+//               an element obtained from outside (`return f.BaseField().Zero()`) is an uninterpreted
+//               `Option Nat` parameter.
+//   s[:n]       `List.take n s` under the guard 0 ≤ n ≤ len(s).  Go allows n up to the CAPACITY, which lists
+//               do not have: here `none` means "panic, or a reslice into spare capacity (not modelled)";
+//               `cap`, `s[a:b]`, `s[a:]`, three-index slices are refused.  `b = append(b, r...)` is `b ++ r`
+//               (whether the backing array is reused is invisible).
+//   own methods `f.M(args)` on the receiver, M an already translated method of the same type with word/int/
+//               element arguments: its translation applied to the CURRENT values of the receiver fields it
+//               reads; a partial callee is bound before the statement (`match … with | none => panic`); a
+//               callee without results (or returning its receiver) is a statement that rebinds the
+//               receiver fields it assigns.  A method returning its own receiver type returns the fields
+//               it assigns.
+//   if A && B   with B possibly panicking: `if A { if B {S} else {T} } else {T}` (short-circuit evaluation)
 //   division    `/` and `%` are Lean's total operations (x / 0 = 0): a Go division by zero (panic) is NOT
 //               modelled, also not in partial functions
 //   switch      `switch x { case a, b: … }` on a variable (no break/fallthrough)
